@@ -607,8 +607,8 @@ theorem yf5 : lastFind kSteps [(kType, a), (kExpires, b), (kReadme, c), (kKeys, 
 theorem yf6 : lastFind kInspect [(kType, a), (kExpires, b), (kReadme, c), (kKeys, d), (kSteps, e), (kInspect, f)] = some f := rfl
 end layoutmembers
 
-theorem keys_norm_injective (E : DocEnv K)
-    (hkey : ∀ k k', norm (E.keyToJson k) = norm (E.keyToJson k') → k = k') {ks ks' : List (Str × K)}
+theorem keys_norm_injective_mem (E : DocEnv K) {ks ks' : List (Str × K)}
+    (hkey : ∀ p ∈ ks, ∀ p' ∈ ks', norm (E.keyToJson p.2) = norm (E.keyToJson p'.2) → p.2 = p'.2)
     (h1 : KeysSorted (ks.map Prod.fst)) (h2 : KeysSorted (ks'.map Prod.fst))
     (h : norm (keysToJson E ks) = norm (keysToJson E ks')) : ks = ks' := by
   unfold keysToJson at h
@@ -625,16 +625,23 @@ theorem keys_norm_injective (E : DocEnv K)
     | cons p' r' =>
       simp only [List.map_cons, Function.comp_apply, List.cons.injEq, Prod.mk.injEq] at h
       obtain ⟨⟨e1, e2⟩, e3⟩ := h
+      have hp := hkey p (by simp) p' (by simp) e2
       obtain ⟨x, y⟩ := p
       obtain ⟨x', y'⟩ := p'
-      simp only at e1 e2
-      subst e1
-      rw [hkey y y' e2, ih e3]
+      simp only at e1 hp
+      subst e1 hp
+      rw [ih (fun q hq q' hq' => hkey q (by simp [hq]) q' (by simp [hq'])) e3]
+
+theorem keys_norm_injective (E : DocEnv K)
+    (hkey : ∀ k k', norm (E.keyToJson k) = norm (E.keyToJson k') → k = k') {ks ks' : List (Str × K)}
+    (h1 : KeysSorted (ks.map Prod.fst)) (h2 : KeysSorted (ks'.map Prod.fst))
+    (h : norm (keysToJson E ks) = norm (keysToJson E ks')) : ks = ks' :=
+  keys_norm_injective_mem E (fun p _ p' _ e => hkey p.2 p'.2 e) h1 h2 h
 
 /-- Layout encoder injective up to JSON normal form, given that the key writer is injective and that
     the expiry writer tells these two expiries apart. -/
-theorem layout_norm_injective_of (E : DocEnv K)
-    (hkey : ∀ k k', norm (E.keyToJson k) = norm (E.keyToJson k') → k = k') {L L' : LayoutW K}
+theorem layout_norm_injective_mem (E : DocEnv K) {L L' : LayoutW K}
+    (hkey : ∀ p ∈ L.keys, ∀ p' ∈ L'.keys, norm (E.keyToJson p.2) = norm (E.keyToJson p'.2) → p.2 = p'.2)
     (htime : E.fmtTime L.expires = E.fmtTime L'.expires → L.expires = L'.expires)
     (hc : LayoutCanon E L) (hc' : LayoutCanon E L')
     (h : norm (layoutToJson E L) = norm (layoutToJson E L')) : L = L' := by
@@ -656,7 +663,7 @@ theorem layout_norm_injective_of (E : DocEnv K)
   have e3 : keys = keys' := by
     have := look kKeys; rw [yf4, yf4] at this
     simp only [Option.map_some, Option.some.injEq] at this
-    exact keys_norm_injective E hkey k1 k2 this
+    exact keys_norm_injective_mem E hkey k1 k2 this
   have e4 : steps = steps' := by
     have := look kSteps; rw [yf5, yf5] at this
     simp only [Option.map_some, Option.some.injEq, norm, JV.arr.injEq, normList_map id] at this
@@ -667,6 +674,13 @@ theorem layout_norm_injective_of (E : DocEnv K)
     exact map_norm_injective (fun x y hxy => insp_norm_injective hxy) this
   subst e1 e2 e3 e4 e5
   rfl
+
+theorem layout_norm_injective_of (E : DocEnv K)
+    (hkey : ∀ k k', norm (E.keyToJson k) = norm (E.keyToJson k') → k = k') {L L' : LayoutW K}
+    (htime : E.fmtTime L.expires = E.fmtTime L'.expires → L.expires = L'.expires)
+    (hc : LayoutCanon E L) (hc' : LayoutCanon E L')
+    (h : norm (layoutToJson E L) = norm (layoutToJson E L')) : L = L' :=
+  layout_norm_injective_mem E (fun p _ p' _ e => hkey p.2 p'.2 e) htime hc hc' h
 
 theorem layout_norm_injective (E : DocEnv K) (hE : EnvInjective E) {L L' : LayoutW K}
     (hc : LayoutCanon E L) (hc' : LayoutCanon E L')
